@@ -200,6 +200,27 @@ theorem runFixed_eq (p : Pat) (hp : 0 < p.length) (T : List Char) (chunks : List
 
 
 
+/-- occurrences that a read adds to the text seen so far, read by read (the reference for the
+    per-read trace: a response belongs to the read that completes its occurrence) -/
+def newPerRead (p : Pat) : List Char → List (List Char) → List Nat
+  | _, [] => []
+  | T, c :: cs => ((findall p (T ++ c)).length - (findall p T).length) :: newPerRead p (T ++ c) cs
+
+theorem runTrace_eq (p : Pat) (hp : 0 < p.length) (T : List Char) (chunks : List (List Char)) :
+    runChunksTrace (submit p) (lastEnd p T) T chunks = newPerRead p T chunks := by
+  induction chunks generalizing T with
+  | nil => simp [runChunksTrace, newPerRead]
+  | cons c cs ih =>
+    obtain ⟨h1, _⟩ := submit_spec p hp T c
+    simp only [runChunksTrace, newPerRead, h1]
+    rw [ih (T ++ c)]
+
+theorem runTrace_sum (sub : Nat → List Char → Nat × Nat) (idx : Nat) (T : List Char) (chunks : List (List Char)) :
+    (runChunksTrace sub idx T chunks).sum = runChunks sub idx T chunks := by
+  induction chunks generalizing idx T with
+  | nil => simp [runChunksTrace, runChunks]
+  | cons c cs ih => simp only [runChunksTrace, runChunks, List.sum_cons, ih]
+
 /-! ### FailingResponder -/
 
 /-- a text without occurrences has no occurrence in any prefix -/
